@@ -62,7 +62,6 @@ structure Parser where
   levels : Array Level
   cur : Nat              -- index of `current_state` in `state[]`
   fault : Bool := false  -- ghost: an access outside `buf` / `levels` was attempted
-  ncb : Nat := 0         -- ghost: number of times `parser->cb` would have been called so far
   oof : Bool := false    -- ghost: the model's loop fuel ran out (proved impossible, C16)
   deriving Repr, Inhabited
 
